@@ -135,7 +135,7 @@ def call_path(I, path, args, e, env, arg_nodes=None, ci=None):
     f, places = m
     if args is None:
         args = eval_args(I, arg_nodes, env, places)
-    if any(isinstance(x, Ite) and isinstance(x.a, (IntV, Sc)) and isinstance(x.b, (IntV, Sc)) for x in args):
+    if not places and not any(isinstance(x, Ref) for x in args) and any(isinstance(x, Ite) and isinstance(x.a, IntV) and isinstance(x.b, IntV) for x in args):
         # numeric models are lifted over conditional arguments
         return I.ite_lift(lambda *xs: f(I, list(xs), node, ci), *args)
     return f(I, args, node, ci)
